@@ -764,6 +764,8 @@ class Tableau(Sequence[Branch], EventEmitter, metaclass=TableauMeta):
     def argument(self, value):
         if self.flag.STARTED in self.flag:
             raise Emsg.IllegalState("Tableau already started")
+        if self.flag.FINISHED in self.flag:
+            raise Emsg.IllegalState("Tableau already finished")
         self._argument = Argument(value)
         if self.logic is not None and self.opts['auto_build_trunk']:
             self.build_trunk()
@@ -772,6 +774,8 @@ class Tableau(Sequence[Branch], EventEmitter, metaclass=TableauMeta):
     def logic(self, value):
         if self.flag.STARTED in self.flag:
             raise Emsg.IllegalState("Tableau already started")
+        if self.flag.FINISHED in self.flag:
+            raise Emsg.IllegalState("Tableau already finished")
         self.rules.clear()
         self._logic = registry(value)
         Rules = self.logic.Rules
@@ -970,6 +974,8 @@ class Tableau(Sequence[Branch], EventEmitter, metaclass=TableauMeta):
             raise Emsg.IllegalState('No logic to build trunk')
         if self.flag.STARTED in self.flag:
             raise Emsg.IllegalState("Tableau already started")
+        if self.flag.FINISHED in self.flag:
+            raise Emsg.IllegalState("Tableau already finished")
         with self.timers.trunk:
             self.emit(Tableau.Events.BEFORE_TRUNK_BUILD, self)
             branch = self.branch()
